@@ -64,6 +64,21 @@ CHECKS = {
              "Schedules enumerated from the model are replayed on the real _ProgressBars (instrumented queue/event, no hook) and compared with the model; CLI runs with many chromosomes count result files. "
              "Modelled: atomic steps = flag test, pop(+append), put, set; the GIL / Manager proxies / pool teardown are not modelled.",
         design="DESIGN.md 6 C11"),
+    "C12": dict(
+        category="proof",
+        technique="Coq proof (crash = any prefix of each chromosome's writes, any worker interleaving, any ties; invariant over all histories) + kill at every file operation of the real command line",
+        text="Theorems c12_crash_safe/success_is_current/invariant over Model/Cache.v: from every reachable disk, killing a run anywhere and repeating the command gives each chromosome the uninterrupted outcome or an error; pinned rules refuted (c12_legacy_refuted, D16). "
+             "Tie: the launcher SIGKILLs the whole process group at every DataFrame.to_csv byte offset / os.replace / h5py create, create_dataset, setitem, flush, close (with/without flush) / per-gene and per-task step of observed runs in 8 scenarios; "
+             "atomicity of every final-named intermediate, membership of the directory in the model's crash states, the re-run against the model and against the uninterrupted run are checked. "
+             "Partial: byte-level crash consistency of HDF5 (torn pages) and power-loss reordering are not modelled; result files are always rewritten by a re-run.",
+        design="DESIGN.md 6 C12"),
+    "C17": dict(
+        category="proof",
+        technique="Coq proof (a failed run leaves a crash state; any number of failed runs then a clean run = clean outcome or error) + fault injection (ENOSPC / worker exceptions) on the real command line",
+        text="Theorems c17_rerun/c17_faults over Model/Cache.v. The first sentence of C17 (a failing step gives a non-zero exit status) is the model's assumption, not a theorem: it is checked on every run by raising OSError(ENOSPC) at every "
+             "create/write/close/rename of every intermediate and result file and RuntimeError in per-gene overlap steps and merge tasks, in the main process and in pool workers, singly and in pairs. "
+             "Then as C12: atomic intermediates, crash-state membership, re-run against model and uninterrupted run.",
+        design="DESIGN.md 6 C17"),
     "C13": dict(
         technique="Coq proof (invariant of the cache state machine over all histories of edits/touches/runs/interrupted runs, any number of chromosomes, any mtime ties; refresh theorem for every disk) + per-run correspondence on real histories",
         text="Theorems c13_rerun/refresh/fresh_directory/windows over Model/Cache.v (symbolic versions, the mtime comparisons of the code as freshness relations, atomic writes, tie oracle); pinned reuse rules refuted (c13_legacy_refuted). "
